@@ -310,6 +310,202 @@ def t_close_is_error(src):
     return fn_body(src, "close", "CommandReader", sp, "bool")
 
 
+# ---- flag update rules (crates/core/flags/defs.rs): a small symbolic execution of `fn update(&self, v, args)` over the
+# two LowArgs fields `pre` and `search_zip`.  The state is a pair of Gallina terms; statements are executed in order,
+# an `if` duplicates the continuation, `return Ok(())` / the tail `Ok(())` yields the state record.  Anything outside
+# this subset (another field assigned, another statement form) is a TranslateError -> fallback + broken-tie report.
+
+def find_trait_impl_fn(src, trait, ty, fn):
+    """defs.rs as a whole is outside the tokenizer's subset (raw doc strings): cut the text of `fn <fn>` out of
+    `impl <trait> for <ty> {` first (rustfmt layout: the method ends at the first line that is exactly `    }`)"""
+    head = "\nimpl %s for %s {\n" % (trait, ty)
+    if src.count(head) != 1:
+        raise TranslateError("`impl %s for %s` found %d times" % (trait, ty, src.count(head)))
+    i = src.index(head)
+    end_impl = src.index("\n}\n", i)
+    j = src.find("\n    fn %s(" % fn, i, end_impl)
+    if j < 0:
+        raise TranslateError("fn %s not found in impl %s for %s" % (fn, trait, ty))
+    k = src.index("\n    }\n", j)
+    if k > end_impl:
+        raise TranslateError("fn %s: end not found" % fn)
+    toks = R.tokenize(src[j:k + 7])
+    b_lo, b_hi = R.find_fn(toks, fn)
+    return R.parse_block(toks, b_lo, b_hi)
+
+
+class FlagExec:
+    FIELDS = {"args.pre": "pre", "args.search_zip": "zip"}
+
+    def __init__(self, fake, atoms, arm):
+        self.t, self.atoms, self.arm = fake, atoms, arm     # arm: which `match v` arm is taken, pattern text -> bindings
+
+    def txt(self, n):
+        return R.norm(self.t[n.lo:n.hi])
+
+    def record(self, st):
+        return "{| pz_pre := %s; pz_zip := %s |}" % (st["pre"], st["zip"])
+
+    def pure(self, n, st, env):
+        """a side-effect free expression -> Gallina term"""
+        while n.kind == "paren":
+            n = n.a
+        x = self.txt(n)
+        if x in env:
+            return env[x]
+        if x in self.atoms:
+            return self.atoms[x]
+        if x == "None":
+            return "(@None bytes)"
+        if x in ("true", "false"):
+            return x
+        if x == "args.pre.is_some()":
+            return "(match %s with Some _ => true | None => false end)" % st["pre"]
+        if x == "args.pre.is_none()":
+            return "(match %s with Some _ => false | None => true end)" % st["pre"]
+        if x == "args.search_zip":
+            return st["zip"]
+        if n.kind == "not":
+            return "(negb %s)" % self.pure(n.a, st, env)
+        if n.kind == "bin" and n.a[0] in ("&&", "||"):
+            return "(%s %s %s)" % (self.pure(n.a[1], st, env), n.a[0], self.pure(n.a[2], st, env))
+        if n.kind == "call" and self.txt(n.a[0]) == "Some" and len(n.a[1]) == 1:
+            return "(Some %s)" % self.pure(n.a[1][0], st, env)
+        if n.kind == "call" and self.txt(n.a[0]) == "PathBuf::from" and len(n.a[1]) == 1:
+            return self.pure(n.a[1][0], st, env)
+        raise TranslateError("flag update: unsupported expression `%s`" % x)
+
+    def value(self, n, st, env, k):
+        """evaluate an expression that may contain effects; k(term, st) builds the rest"""
+        while n.kind == "paren":
+            n = n.a
+        if n.kind == "if":
+            cond, then, els = n.a
+            if cond.kind == "letcond" or els is None:
+                raise TranslateError("flag update: `if` used as a value needs a plain condition and an else")
+            c = self.pure(cond, st, env)
+            return "(if %s then %s else %s)" % (c, self.value(then, dict(st), env, k), self.value(els, dict(st), env, k))
+        if n.kind == "block":
+            stmts, tail = n.a
+            if tail is None:
+                # a block without a value: fine if every path through it returns
+                def no_value(st2):
+                    raise TranslateError("flag update: block used as a value has no tail and does not return")
+                return self.stmts(list(stmts), st, env, no_value)
+            return self.stmts(list(stmts), st, env, lambda st2: self.value(tail, st2, env, k))
+        if n.kind == "match":
+            body, env2 = self.take_arm(n, env)
+            return self.value(body, st, env2, k)
+        return k(self.pure(n, st, env), st)
+
+    def take_arm(self, n, env):
+        scrut, arms = n.a
+        if self.txt(scrut) != "v":
+            raise TranslateError("flag update: match on something other than the flag value")
+        pats = sorted(self.txt(p) for p, g, b in arms)
+        if pats != sorted(self.arm["all"]) or any(g is not None for p, g, b in arms):
+            raise TranslateError("flag update: arms of `match v` are %s" % pats)
+        for p, g, b in arms:
+            if self.txt(p) == self.arm["take"]:
+                e2 = dict(env)
+                e2.update(self.arm["bind"])
+                return b, e2
+        raise TranslateError("flag update: arm not found")
+
+    def stmts(self, items, st, env, k):
+        """execute statements; k(st) builds what follows the list; a `return` ends the function"""
+        if not items:
+            return k(st)
+        s, rest = items[0], items[1:]
+        if s.kind == "assign":
+            lhs = self.txt(s.a[0])
+            if lhs not in self.FIELDS:
+                raise TranslateError("flag update: assignment to `%s`" % lhs)
+            f = self.FIELDS[lhs]
+
+            def after(term, st2):
+                st3 = dict(st2)
+                st3[f] = term
+                return self.stmts(rest, st3, env, k)
+            return self.value(s.a[1], st, env, after)
+        if s.kind == "let":
+            pat, rhs, els = s.a
+            if pat.kind != "pbind" or els is not None:
+                raise TranslateError("flag update: unsupported let")
+
+            def after(term, st2):
+                e2 = dict(env)
+                e2[pat.a] = term
+                return FlagExec.stmts(self, rest, st2, e2, k)
+            return self.value(rhs, st, env, after)
+        if s.kind == "expr":
+            e = s.a
+            if e.kind == "return":
+                if e.a is None or self.txt(e.a) != "Ok(())":
+                    raise TranslateError("flag update: return of something other than Ok(())")
+                return self.record(st)
+            if e.kind == "macro":
+                x = self.txt(e)
+                if not any(x.startswith(a) for a in self.arm.get("asserts", [])):
+                    raise TranslateError("flag update: macro `%s`" % x[:40])
+                return self.stmts(rest, st, env, k)
+            if e.kind == "if":
+                cond, then, els = e.a
+                if cond.kind == "letcond":
+                    raise TranslateError("flag update: if let")
+                c = self.pure(cond, st, env)
+                cont = lambda st2: self.stmts(rest, st2, env, k)
+                a = self.block_stmt(then, dict(st), env, cont)
+                b = cont(dict(st)) if els is None else (
+                    self.block_stmt(els, dict(st), env, cont) if els.kind == "block" else
+                    self.stmts([Node_expr(els)], dict(st), env, cont))
+                return "(if %s then %s else %s)" % (c, a, b)
+            if e.kind == "block":
+                return self.block_stmt(e, st, env, lambda st2: self.stmts(rest, st2, env, k))
+        raise TranslateError("flag update: unsupported statement `%s`" % self.txt(s)[:60])
+
+    def block_stmt(self, blk, st, env, k):
+        stmts, tail = blk.a
+        items = list(stmts)
+        if tail is not None:
+            items.append(Node_expr(tail))
+        return self.stmts(items, st, env, k)
+
+    def function(self, blk, st):
+        stmts, tail = blk.a
+        if tail is None or self.txt(tail) != "Ok(())":
+            raise TranslateError("flag update: the function does not end in Ok(())")
+        return self.stmts(list(stmts), st, {}, self.record)
+
+
+def Node_expr(e):
+    return R.Node("expr", e, e.lo, e.hi)
+
+
+PZ_STATE = {"pre": "(pz_pre s)", "zip": "(pz_zip s)"}
+VALUE_ARMS = ["FlagValue::Value(v)", "FlagValue::Switch(yes)"]
+
+
+def t_pre_update_value(src):
+    fake, blk = find_trait_impl_fn(src, "Flag", "Pre", "update")
+    ex = FlagExec(fake, {"path.as_os_str().is_empty()": "(path_is_empty p)"},
+                  dict(all=VALUE_ARMS, take="FlagValue::Value(v)", bind={"v": "p"}))
+    return ex.function(blk, dict(PZ_STATE)), R.norm(fake[blk.lo + 1:blk.hi - 1])
+
+
+def t_pre_update_switch(src):
+    fake, blk = find_trait_impl_fn(src, "Flag", "Pre", "update")
+    ex = FlagExec(fake, {}, dict(all=VALUE_ARMS, take="FlagValue::Switch(yes)", bind={"yes": "false"},
+                                 asserts=["assert!(!yes"]))
+    return ex.function(blk, dict(PZ_STATE)), R.norm(fake[blk.lo + 1:blk.hi - 1])
+
+
+def t_zip_update(src):
+    fake, blk = find_trait_impl_fn(src, "Flag", "SearchZip", "update")
+    ex = FlagExec(fake, {"v.unwrap_switch()": "yes"}, dict(all=[], take=None, bind={}))
+    return ex.function(blk, dict(PZ_STATE)), R.norm(fake[blk.lo + 1:blk.hi - 1])
+
+
 TARGETS = [
     # name, params, type, file, translator
     ("exit_code", "(matched quiet errored : bool)", "N", "crates/core/main.rs", t_exit_code, []),
@@ -341,6 +537,9 @@ TARGETS = [
      t_select_strategy, []),
     ("close_is_error", "(stdout_open wait_success eof stderr_is_empty : bool)", "bool", "crates/cli/src/process.rs",
      t_close_is_error, []),
+    ("pre_update_value", "(p : bytes) (s : pz_state)", "pz_state", "crates/core/flags/defs.rs", t_pre_update_value, []),
+    ("pre_update_switch", "(s : pz_state)", "pz_state", "crates/core/flags/defs.rs", t_pre_update_switch, []),
+    ("zip_update", "(yes : bool) (s : pz_state)", "pz_state", "crates/core/flags/defs.rs", t_zip_update, []),
 ]
 
 
@@ -389,7 +588,7 @@ def generate(repo, root):
            "   One definition per decision expression; `translated` says whether the body below is the translation",
            "   of the current source text (true) or the hand-written fallback of Model/CliExpected.v (false). *)",
            "From Coq Require Import NArith Bool List.",
-           "From RG Require Import Model.CliTypes Model.CliExpected.",
+           "From RG Require Import Base.Bytes Model.CliTypes Model.PreZipFlags Model.CliExpected.",
            "Import ListNotations.", "Local Open Scope bool_scope.", ""]
     for name, params, ty, rel, fn, enums in TARGETS:
         ok, msg, text = True, "", ""
